@@ -58,6 +58,7 @@ Section Loop.
   Lemma ispec_weaken {A} (c : prog A) p s W Al W' Al' :
     ispec c p s W Al -> W <= W' -> Al <= Al' -> ispec c p s W' Al'.
   Proof.
+    clear Hd Hlen.
     unfold ispec. destruct (mrun c d p) as [[r p'] k]. intros (H1 & H2 & H3 & H4) Hw Ha.
     repeat split; auto; lia.
   Qed.
